@@ -8,7 +8,7 @@
    length of the datagram the real codec produces for every emitted response. *)
 From Coq Require Import List Arith NArith Bool.
 From Discv5V Require Import Generated.Params Model.KBucket Model.Nodes Model.Serve
-  Proofs.Nodes Proofs.KBMembers Proofs.Serve.
+  Proofs.Nodes Proofs.KBMembers Proofs.Serve Proofs.ServeGap.
 Import ListNotations.
 Local Open Scope N_scope.
 
@@ -158,3 +158,101 @@ Example C14_example_full_answer :
   = [(6, 3%nat, 1004); (6, 3%nat, 1004); (6, 3%nat, 1004); (6, 3%nat, 1004); (6, 3%nat, 1004); (6, 2%nat, 704)].
 Proof. vm_compute. reflexivity. Qed.
 Print Assumptions C14_example_full_answer.
+
+(* ---------------------------------------------------------------------------------------------- *)
+(* Statements about the answer as a whole (gap audit, notes/gap_audit_C14_C20.md) *)
+
+Lemma C14_served_is_answer c t lv requester id ds maxn rsize now :
+  served_records (snd (serve_findnode c t lv requester id ds maxn rsize now))
+  = snd (answer c t lv requester ds maxn now).
+Proof.
+  pose proof (serve_findnode_answer c t lv requester id ds maxn rsize now) as H.
+  destruct (serve_findnode c t lv requester id ds maxn rsize now). exact (proj2 H).
+Qed.
+
+(* "at most the configured maximum (plus its own record)": the records of all packets of an answer
+   together are at most max_nodes_response table entries, plus the local record iff distance 0 was
+   requested - for every table, distance list, requester and configured maximum >= 1. *)
+Theorem C14_answer_at_most_max_plus_own :
+  forall c t lv requester id ds maxn rsize now, (1 <= maxn)%nat ->
+  (length (served_records (snd (serve_findnode c t lv requester id ds maxn rsize now)))
+   <= (if mem 0 ds then 1 else 0) + maxn)%nat.
+Proof.
+  intros c t lv requester id ds maxn rsize now H. rewrite C14_served_is_answer.
+  apply answer_length_pos. exact H.
+Qed.
+Print Assumptions C14_answer_at_most_max_plus_own.
+
+(* The hypothesis 1 <= max_nodes_response cannot be dropped: with max_nodes_response = 0 the
+   collection loop of nodes_by_distances pushes a node before it tests the limit, and one table
+   entry is served (in general: at most max(maximum, 1), C14_collect_bounded). *)
+Theorem C14_max_zero_serves_one_refuted :
+  exists c t lv requester ds now,
+    length (snd (answer c t lv requester ds 0 now)) = 1%nat /\ mem 0 ds = false.
+Proof. exact answer_max_zero_serves_one. Qed.
+Print Assumptions C14_max_zero_serves_one_refuted.
+
+(* "never the requester's own record": for EVERY table (no placement hypothesis), a served record
+   is the local record (and then distance 0 was requested) or a collected table entry whose key is
+   not the requester's node id. *)
+Theorem C14_never_the_requesters_record :
+  forall c t lv requester id ds maxn rsize now s,
+  In s (served_records (snd (serve_findnode c t lv requester id ds maxn rsize now))) ->
+    (s = {| s_key := local t; s_val := lv |} /\ mem 0 ds = true) \/
+    (s_key s <> requester /\
+     exists n, s = item_of_node n /\
+               In n (nbd_collect (fst (serve_findnode c t lv requester id ds maxn rsize now))
+                                 (table_distances ds) 0 maxn)).
+Proof.
+  intros c t lv requester id ds maxn rsize now s. rewrite C14_served_is_answer.
+  pose proof (serve_findnode_answer c t lv requester id ds maxn rsize now) as H.
+  destruct (serve_findnode c t lv requester id ds maxn rsize now) as [t' ps]. cbn [fst].
+  rewrite (proj1 H). apply answer_never_requester.
+Qed.
+Print Assumptions C14_never_the_requesters_record.
+
+(* never more packets than records (exactly one packet for an empty answer) *)
+Theorem C14_packet_count :
+  forall c t lv requester id ds maxn rsize now,
+  (forall s, In s (snd (answer c t lv requester ds maxn now)) -> rsize (s_val s) < SPLIT_LIMIT) ->
+  (length (snd (serve_findnode c t lv requester id ds maxn rsize now))
+   <= Nat.max 1 (length (snd (answer c t lv requester ds maxn now))))%nat.
+Proof. exact packets_count. Qed.
+Print Assumptions C14_packet_count.
+
+(* "split into packets that each encode to at most 1280 bytes on the wire", with hypotheses on the
+   inputs only (C14_packet_fits assumes a bound on the number of EMITTED packets): records of at
+   most MAX_ENR_SIZE = 300 bytes, a request id of at most 8 bytes (the decoder's limit) and
+   max_nodes_response <= 254 (the default is 16).  For every table, distance list and requester. *)
+Theorem C14_packet_fits_config :
+  forall c t lv requester id ds maxn rsize now,
+  (forall v, rsize v <= MAX_ENR_SIZE) -> (length id <= 8)%nat -> (maxn <= 254)%nat ->
+  forall p, In p (snd (serve_findnode c t lv requester id ds maxn rsize now)) ->
+    wire_size (nodes_msg_size rsize p) <= MAX_PACKET_SIZE.
+Proof. exact packet_fits_config. Qed.
+Print Assumptions C14_packet_fits_config.
+(* (C14_example_full_answer above is an instance: maxn = 16, 300-byte records, id of 8 bytes.) *)
+
+(* "records that are exactly its table entries at the requested distances ... at most the configured
+   maximum": the whole answer in closed form, for every table, distance list, requester and
+   maximum.  With [t'] the table after the call (due pending nodes of the requested buckets
+   applied) and [ds'] the requested distances that lie in 1..=256, each once, ascending
+   (C14_table_distances_spec): the served records are the local record iff 0 was requested,
+   followed by the first max(max_nodes_response, 1) entries of the buckets ds' (bucket by bucket, in
+   bucket order), minus the requester's entry. *)
+Theorem C14_answer_exact :
+  forall c t lv requester id ds maxn rsize now,
+  let (t', ps) := serve_findnode c t lv requester id ds maxn rsize now in
+  served_records ps =
+    (if mem 0 ds then [{| s_key := local t; s_val := lv |}] else [])
+    ++ map item_of_node
+         (filter (fun n => negb (nkey n =? requester))
+            (firstn (Nat.max maxn 1)
+               (flat_map (fun d => nodes (get_bucket t' (N.to_nat (d - 1)))) (table_distances ds)))).
+Proof.
+  intros c t lv requester id ds maxn rsize now.
+  pose proof (C14_served_records_exact c t lv requester id ds maxn rsize now) as H.
+  destruct (serve_findnode c t lv requester id ds maxn rsize now) as [t' ps]. cbv zeta in H.
+  destruct H as (_ & H2). rewrite H2, nbd_collect_exact. reflexivity.
+Qed.
+Print Assumptions C14_answer_exact.
